@@ -141,6 +141,10 @@ func newCreateTable(ct sql.CreateTableStmt) (*Schema, error) {
 	}
 	for i, c := range ct.Columns {
 		c := c
+		if st.Column(c.Name) >= 0 {
+			// duplicate column name; SQLite refuses to create such a table
+			return nil, ErrInvalidDef
+		}
 		integerKey := !hasTypeArgs(i) && isRowid(false, c.Type, c.PrimaryKeyDir)
 		st.Columns = append(st.Columns, TableColumn{
 			Column:  c.Name,
